@@ -186,7 +186,7 @@ type Stats struct {
 	MaxRound                                                                       uint64
 	Sways, SkipsRound, SkipsDecide, Rebroadcasts                                   int
 	LateCommitDecisions                                                            int
-	HijackConverges, HijackCommits, ForgedFloods                                   int
+	HijackConverges, HijackCommits, ForgedFloods, SuppVariants                     int
 }
 
 type tracer struct{ w *World }
